@@ -330,6 +330,9 @@ func (intr *treeInterpreter) fieldFromStruct(key string, value interface{}) (int
 			return nil, nil
 		}
 		rv = rv.Elem()
+		if rv.Kind() != reflect.Struct {
+			return nil, nil
+		}
 		v := rv.FieldByName(fieldName)
 		if !v.IsValid() || !v.CanInterface() {
 			return nil, nil
